@@ -124,6 +124,10 @@ def pick_agreement(ctx: Ctx, rule: str, which: str) -> None:
     if test_if is None:
         raise AnalysisError(f"{fref}: exhaustion test (if ...: raise) not found")
     f_empty = norm.formula(test_if.test)
+    if f_empty[0] == "not" and f_empty[1][0] == "atom" and f_empty[1][1].isidentifier() and any(
+            s_.targets[0].id == f_empty[1][1] and isinstance(s_.value, (ast.ListComp, ast.List)) for s_ in assigns):
+        # `not xs` on a local that is built as a list is the emptiness test `len(xs) == 0`
+        f_empty = ("atom", f"empty({f_empty[1][1]})")
     if f_empty[0] != "atom" or not f_empty[1].startswith("empty("):
         raise AnalysisError(f"{fref}: exhaustion test is not an emptiness test: {ast.unparse(test_if.test)}")
     var = f_empty[1][6:-1]
